@@ -35,10 +35,11 @@ type gcSub struct {
 }
 
 type gcPub struct {
-	Name  string
-	Topic string
-	N     int
-	Batch bool // publish all N messages in one call
+	Name    string
+	Topic   string
+	N       int
+	Batch   bool // publish all N messages in one call
+	DeadCtx bool // the published messages carry a context that is already cancelled (it is the publisher's business, not the Pub/Sub's)
 }
 
 type gcGate struct {
@@ -113,11 +114,20 @@ func (x *gcRunner) chanClosed(name string) {
 }
 
 func (x *gcRunner) publish(pname, topic string, n int, batch bool) {
+	x.publishCtx(pname, topic, n, batch, false)
+}
+
+func (x *gcRunner) publishCtx(pname, topic string, n int, batch bool, deadCtx bool) {
 	var batchMsgs []*message.Message
 	for i := 0; i < n; i++ {
 		k := atomic.AddInt32(&x.mseq, 1)
 		mid := fmt.Sprintf("m%d", k)
 		msg := message.NewMessage(x.prefix+mid, []byte("payload-"+mid))
+		if deadCtx {
+			dctx, dcancel := context.WithCancel(context.Background())
+			dcancel()
+			msg.SetContext(dctx)
+		}
 		msg.Metadata.Set("k", mid)
 		msg.Metadata.Set("empty", "")
 		x.mu.Lock()
@@ -536,7 +546,7 @@ func (x *gcRunner) body() (gateReached bool) {
 	for _, p := range sc.Pubs {
 		p := p
 		x.pubsWg.Add(1)
-		go func() { defer x.pubsWg.Done(); x.publish(p.Name, p.Topic, p.N, p.Batch) }()
+		go func() { defer x.pubsWg.Done(); x.publishCtx(p.Name, p.Topic, p.N, p.Batch, p.DeadCtx) }()
 	}
 	for _, s := range sc.Subs {
 		s := s
